@@ -79,10 +79,25 @@ def load_findings():
 
 # ----------------------------------------------------------------------------- running
 
+def _child_setup(limit_as):
+    def f():
+        os.setsid()
+        if limit_as:
+            import resource
+            try:
+                resource.setrlimit(resource.RLIMIT_AS, (limit_as, limit_as))
+            except Exception:  # noqa
+                pass
+    return f
+
+
 def run_proc(cmd, env, logpath, timeout):
+    # address-space cap for the plain binaries (a runaway case must not take the machine down);
+    # -race binaries need a huge virtual address space for the detector's shadow memory, no cap there
+    limit = 0 if (".race." in cmd[0] or ".fuzz." in cmd[0]) else 24 << 30
     with open(logpath, "w") as lf:
         p = subprocess.Popen(cmd, cwd=os.path.dirname(logpath), env=env, stdout=lf, stderr=subprocess.STDOUT,
-                             preexec_fn=os.setsid)
+                             preexec_fn=_child_setup(limit))
         try:
             rc = p.wait(timeout=timeout)
             return rc, False
@@ -366,7 +381,9 @@ def check(prop, tier):
                         if not m or int(m.group(1)) < per:
                             inconclusive.append("%s shard %d: rapid passed %s of %d" % (u["test"], i, m.group(1) if m else "?", per))
                     continue
-                if os.path.exists(failfile):
+                if re.search(r"out of memory|cannot allocate memory", text):
+                    inconclusive.append("%s shard %d: out of memory\n%s" % (u["test"], i, tail(logpath, 6)))
+                elif os.path.exists(failfile):
                     dst = save_replay(prop, failfile)
                     msg = json.load(open(failfile)).get("failure", "")
                     violations.append((dst, msg))
